@@ -210,6 +210,7 @@ struct EntropyReq {      // one observed entropy request of a generator
     bool system = false; // came through the OS stub
     bool sys_ok = false;
     long emitted = -1;   // bytes of the current generate call already written when the request was made (-1: not inside generate)
+    uint64_t snap[4]; int nsnap = 0; // hashes of the (up to) four 32-byte blocks just before 'emitted' as they were at that moment
 };
 
 struct PrngObj {
@@ -247,8 +248,9 @@ struct CurOp {                 // context of the op currently executing in a tas
     size_t os_req = 0;         // system-source requests so far in this op
     // OS request state
     bool os_active = false, os_auto = false; size_t os_pos = 0; int os_terminal = -1; // -1 none, 0 success, >0 errno
-    int os_calls = 0; int os_extra = 0; long req_emitted = -1;
-    uint8_t os_last_ok[32]; bool os_have_ok = false;
+    int os_calls = 0; int os_extra = 0; long req_emitted = -1; uint64_t req_snap[4]; int req_nsnap = 0;
+    uint8_t os_last_ok[32]; bool os_have_ok = false;   // the last 32 bytes the OS delivered in the current request
+    uint64_t os_stream_pos = 0, os_delivered = 0;
     int fds_open = 0; int fd_next = 0; int opens = 0, closes = 0; int fds[16]; int nfds = 0;
     bool in_call = false;      // a library call is on this task's stack
     int entry_errno = 0;       // errno value installed at every library entry of this op (plan data)
